@@ -241,11 +241,14 @@ WHERE = ENTRY + list(ASSIGN)
 
 def reserved_case(TPm, RTm, EXCm, name, where, enable_loop):
     import io
+    # enable_loop == "page": switched off at the constructor and on again by the template's <%page> tag
+    page = '<%page enable_loop="True"/>\n' if enable_loop == "page" else ""
+    enable_loop = enable_loop is True
     try:
         if where in ASSIGN:
-            TPm.Template(ASSIGN[where].replace("NAME", name), enable_loop=enable_loop).render()
+            TPm.Template(page + ASSIGN[where].replace("NAME", name), enable_loop=enable_loop).render()
         else:
-            t = TPm.Template("<%def name='d()'>x</%def>y", enable_loop=enable_loop)
+            t = TPm.Template(page + "<%def name='d()'>x</%def>y", enable_loop=enable_loop)
             kw = {name: 1}
             if where == "render":
                 t.render(**kw)
@@ -274,7 +277,7 @@ def reserved_case(TPm, RTm, EXCm, name, where, enable_loop):
 def h_reserved(p):
     name = RESERVED[p.choose(len(RESERVED), "name")]
     where = WHERE[p.choose(len(WHERE), "where")]
-    enable_loop = bool(p.choose(2, "enable_loop"))
+    enable_loop = [False, True, "page"][p.choose(3, "enable_loop")]
     return dict(name=name, where=where, enable_loop=enable_loop, res=reserved_case(TP, RT, EXC, name, where, enable_loop))
 
 
@@ -410,6 +413,8 @@ def classify(c):
         # every way a value of that name reaches a def or the body through the context (render argument, page argument, body
         # assignment seen by a def) is the same defect
         return "C04-print-not-resolved-from-context"
+    if c["kind"] == "reserved-name" and i.get("name") == "loop" and i.get("enable_loop") == "page" and i.get("where") in ENTRY:
+        return "C04-loop-enabled-by-page-accepted-by-render"
     if c["kind"] == "reserved-name" and i.get("name") != "ordinary":
         if i.get("where") == "module-level-assignment":
             return "C04-reserved-name-module-level-assignment"
